@@ -19,13 +19,33 @@ from .processor import Processor
 
 protein_resnames = "GLY|ALA|CYS|VAL|LEU|ILE|MET|PRO|HYP|ASN|GLN|ASP|ASP0|GLU|GLU0|THR|SER|LYS|LYS0|ARG|ARG0|HIS|HISH|PHE|TYR|TRP"
 
+def _resids(meta_molecule):
+    """
+    dict of the resid of every node in the residue graph
+    """
+    return {node: meta_molecule.nodes[node]['resid'] for node in meta_molecule.nodes}
+
+def _node_from_resid(meta_molecule, resid):
+    """
+    find the node of the residue graph that has the residue id `resid`
+    """
+    for node, node_resid in _resids(meta_molecule).items():
+        if node_resid == resid:
+            return node
+    raise KeyError(f"No residue with resid {resid} in molecule.")
+
 def _patch_protein_termini(meta_molecule, ter_mods=['N-ter', 'C-ter']):
     """
     make a resspec for a protein with correct terminal modification
     """
-    protein_termini = [({'resid': 1, 'resname': meta_molecule.nodes[0]['resname']}, ter_mods[0])]
-    max_resid = meta_molecule.max_resid
-    last_node = max_resid - 1
+    # residues are identified by their resid; the node keys of the residue graph
+    # and the first resid are arbitrary
+    first_node = _node_from_resid(meta_molecule, min(_resids(meta_molecule).values()))
+    first_resid = meta_molecule.nodes[first_node]['resid']
+    first_resname = meta_molecule.nodes[first_node]['resname']
+    protein_termini = [({'resid': first_resid, 'resname': first_resname}, ter_mods[0])]
+    max_resid = max(_resids(meta_molecule).values())
+    last_node = _node_from_resid(meta_molecule, max_resid)
     last_resname = meta_molecule.nodes[last_node]['resname']
     if len(ter_mods) > 1:
         last_mod = ({'resid': max_resid, 'resname': last_resname}, ter_mods[1])
@@ -33,7 +53,7 @@ def _patch_protein_termini(meta_molecule, ter_mods=['N-ter', 'C-ter']):
     else:
         # if only one mod in ter_mods, apply the mod to both start and end residue
         LOGGER.info("Only one terminal modification specified. "
-                    f"Will apply {ter_mods[0]} to both {meta_molecule.nodes[0]['resname']}1 and {last_resname}{max_resid}")
+                    f"Will apply {ter_mods[0]} to both {first_resname}{first_resid} and {last_resname}{max_resid}")
         protein_termini.append(({'resid': max_resid, 'resname': last_resname}, ter_mods[0]))
 
     return protein_termini
@@ -74,7 +94,7 @@ def apply_mod(meta_molecule, modifications):
             else:
                 mod_atoms[mod_atom['atomname']] = {}
 
-        target_residue = meta_molecule.nodes[target_resid - 1]
+        target_residue = meta_molecule.nodes[_node_from_resid(meta_molecule, target_resid)]
         # takes care to skip all residues that come from an itp file
         if not target_residue.get('from_itp', 'False'):
             LOGGER.warning("meta_molecule has come from itp. Will not attempt to modify.")
